@@ -100,6 +100,22 @@ def check_case(case, rng, R):
             problems.append(("solution_cost:exception:%s" % type(e).__name__, "solution_cost(%r) raised %s: %s" % (asg, type(e).__name__, e)))
             continue
         R.count("solution_cost_complete_checked")
+        if case["external"] and rng.random() < 0.5:
+            # an assignment that also carries an (out of date) entry for an external variable - e.g. a snapshot taken
+            # before the sensor changed: the cost is computed with the external variable's current value
+            stale = dict(asg)
+            for en, cur in case["external"].items():
+                others = [x for x in vm[en]["domain"] if x != cur]
+                if others:
+                    stale[en] = rng.choice(others)
+            try:
+                got_s = dcop.solution_cost(stale, inf)
+                R.count("solution_cost_with_stale_external_entries_checked")
+                if got_s[0] != want[0] or not gen.close(got_s[1], want[1]):
+                    problems.append(("solution_cost:stale-external-entry-used", "solution_cost(%r) == %r with external variables currently at %r, definition gives %r" % (
+                        stale, got_s, case["external"], want)))
+            except Exception as e:
+                problems.append(("solution_cost:exception-with-external-entry:%s" % type(e).__name__, "solution_cost(%r) raised %s: %s" % (stale, type(e).__name__, e)))
         if got[0] != want[0] or not gen.close(got[1], want[1]):
             key = "solution_cost:wrong"
             if case["constants"]:
